@@ -2,6 +2,7 @@ import Hyeong.Lemmas.CliStatus
 import Hyeong.Lemmas.DbgSafe
 import Hyeong.Props.C04
 import Hyeong.Generated.Extracted
+import Hyeong.Lemmas.CliOutput
 /-!
 # C13 — the command-line tool ends in a defined way on any file and any input
 
@@ -22,6 +23,24 @@ theorem cli_outcome (budget fuel level : Nat) (path : List Char) (extOk : Bool) 
     (o : CliOut) (h : cliRun (N := N) budget fuel level path extOk src stdin = some o) :
     o.status ≤ 1 ∧ (o.diag = true → o.status = 1) :=
   cliRun_status budget fuel level path extOk src stdin o h
+
+/-- **End to end.** Whenever `hyeong run` ends on a readable `.hyeong` file, at any level, then after its log
+lines it has printed exactly the standard output and standard error of the interpreter's (level-0,
+preloaded) run of the parsed program on the given input, up to where that run ends normally (status 0),
+exits (status = the requested 0 or 1) or stops on unencodable output (diagnostic, status 1). The only other
+case: optimisation itself met unencodable output — only the diagnostic is shown (status 1), and the
+unoptimised run stops on an encoding error too. Composes the models of main.rs/run.rs (incremental
+`execute`), the parser (C04: what is run is what the grammar says), the optimiser (C02, C10) and the
+interpreter (C01: its run is the language definition's). -/
+theorem run_end_to_end (budget fuel level : Nat) (path src stdin : List Char) (o : CliOut)
+    (h : cliRun (N := HyN.NumI) budget fuel level path true (some src) stdin = some o) :
+    let code := (HyP.parse src).map Cmd.ofParsed
+    let log0 := logLine ("parsing ".toList ++ path)
+    let log := (if level = 0 then log0 else log0 ++ logLine ("optimizing to level ".toList ++ natStr level)) ++ logLine "running code".toList
+    (∃ n, runOutcome log (runN code n (initCfg stdin)) = some o) ∨
+    (level ≠ 0 ∧ o = ⟨log0 ++ logLine ("optimizing to level ".toList ++ natStr level), [], true, 1⟩ ∧
+      ∃ n e, (runN code n (initCfg stdin)).2 = .stopped e ∧ ∀ c, e ≠ .exit c) :=
+  HyE.run_end_to_end budget fuel level path src stdin o h
 
 /-- a non-`.hyeong` name, an unreadable file or a file that is not UTF-8 is diagnosed with status 1 -/
 theorem cli_bad_file (budget fuel level : Nat) (path stdin : List Char) (extOk : Bool) (src : Option (List Char))
